@@ -1,8 +1,11 @@
 package ref
 
 import (
+	"encoding/hex"
+	"encoding/json"
 	"strings"
 	"unicode"
+	"unicode/utf8"
 )
 
 // ---- field splitting (XCU 2.6.5, as restated by property C14) ---------------
@@ -13,8 +16,42 @@ type Seg struct {
 	Quoted bool   `json:"quoted"`
 }
 
+// JSON cannot carry text that is not valid UTF-8: it is recorded as
+// hexadecimal in text_hex instead.
+type segPlain Seg
+
+type segWire struct {
+	segPlain
+	Hex string `json:"text_hex,omitempty"`
+}
+
+func (s Seg) MarshalJSON() ([]byte, error) {
+	w := segWire{segPlain: segPlain(s)}
+	if !utf8.ValidString(s.Text) {
+		w.Hex, w.Text = hex.EncodeToString([]byte(s.Text)), ""
+	}
+	return json.Marshal(w)
+}
+
+func (s *Seg) UnmarshalJSON(b []byte) error {
+	var w segWire
+	if err := json.Unmarshal(b, &w); err != nil {
+		return err
+	}
+	*s = Seg(w.segPlain)
+	if w.Hex != "" {
+		x, err := hex.DecodeString(w.Hex)
+		if err != nil {
+			return err
+		}
+		s.Text = string(x)
+	}
+	return nil
+}
+
 type sch struct {
 	r      rune
+	txt    string // the bytes of the character (an invalid byte is a character of its own)
 	quoted bool
 	mark   bool // an empty quoted part
 }
@@ -30,8 +67,9 @@ func Split(segs []Seg, ifs string, ifsSet bool) []string {
 		if s.Quoted && s.Text == "" {
 			cs = append(cs, sch{mark: true, quoted: true})
 		}
-		for _, r := range s.Text {
-			cs = append(cs, sch{r: r, quoted: s.Quoted})
+		for j, r := range s.Text {
+			_, w := utf8.DecodeRuneInString(s.Text[j:])
+			cs = append(cs, sch{r: r, txt: s.Text[j : j+w], quoted: s.Quoted})
 		}
 	}
 	type field struct {
@@ -49,7 +87,7 @@ func Split(segs []Seg, ifs string, ifsSet bool) []string {
 			cur.quoted = true
 			return
 		}
-		cur.b.WriteRune(c.r)
+		cur.b.WriteString(c.txt)
 		cur.quoted = cur.quoted || c.quoted
 	}
 	if ifs == "" {
@@ -58,7 +96,7 @@ func Split(segs []Seg, ifs string, ifsSet bool) []string {
 		}
 		flush()
 	} else {
-		isIFS := func(c sch) bool { return !c.quoted && !c.mark && strings.ContainsRune(ifs, c.r) }
+		isIFS := func(c sch) bool { return !c.quoted && !c.mark && inIFS(ifs, c.txt) }
 		isWS := func(c sch) bool { return isIFS(c) && unicode.IsSpace(c.r) }
 		i := 0
 		for i < len(cs) && isWS(cs[i]) { // leading IFS white space is ignored
@@ -108,12 +146,25 @@ func Conserved(segs []Seg, ifs string, ifsSet bool) string {
 	}
 	var b strings.Builder
 	for _, s := range segs {
-		for _, r := range s.Text {
-			if !s.Quoted && strings.ContainsRune(ifs, r) {
+		for j := range s.Text {
+			_, w := utf8.DecodeRuneInString(s.Text[j:])
+			if !s.Quoted && inIFS(ifs, s.Text[j:j+w]) {
 				continue
 			}
-			b.WriteRune(r)
+			b.WriteString(s.Text[j : j+w])
 		}
 	}
 	return b.String()
+}
+
+// inIFS: the character (its bytes) is one of the characters of ifs. Invalid
+// bytes are characters of their own and equal only to the same byte.
+func inIFS(ifs, ch string) bool {
+	for j := range ifs {
+		_, w := utf8.DecodeRuneInString(ifs[j:])
+		if ifs[j:j+w] == ch {
+			return true
+		}
+	}
+	return false
 }
